@@ -396,6 +396,77 @@ func (c02child) stress(seed int64, senders, per int, mode string) string {
 	return fmt.Sprintf("lost=%d twice=0 stop=%s", lost, stop)
 }
 
+func (c02child) filtered(toks []string) string {
+	ln, err := net.Listen("tcp", "127.0.0.1:0")
+	if err != nil {
+		return "sockerr"
+	}
+	defer ln.Close()
+	var seen int32
+	go func() {
+		bc, err := ln.Accept()
+		if err != nil {
+			return
+		}
+		defer bc.Close()
+		dec := redis.VerifNewDecoder(bc, 4096)
+		for {
+			if _, err := dec.Decode(); err != nil {
+				return
+			}
+			atomic.AddInt32(&seen, 1)
+			if _, err := bc.Write([]byte("$1\r\nv\r\n")); err != nil {
+				return
+			}
+		}
+	}()
+	conn, err := net.Dial("tcp", ln.Addr().String())
+	if err != nil {
+		return "sockerr"
+	}
+	cl, err := redis.VerifNewClientCompress(conn, true, 1024)
+	if err != nil {
+		return "clienterr"
+	}
+	var reqs []*redis.VerifSimple
+	for _, tk := range toks {
+		var body *redis.RespValue
+		switch tk {
+		case "g":
+			body = hx.Bulks([]byte("get"), []byte("k"))
+		case "s":
+			body = hx.Bulks([]byte("set"), []byte("k"), []byte("v"))
+		case "a":
+			body = hx.Bulks([]byte("append"), []byte("k"), []byte("x"))
+		default:
+			return "bad-op"
+		}
+		r := redis.VerifNewSimple(body)
+		reqs = append(reqs, r)
+		cl.SendReq(r)
+	}
+	started := make(chan struct{})
+	go func() { cl.Start(); close(started) }()
+	deadline := time.Now().Add(1500 * time.Millisecond)
+	answered := 0
+	for time.Now().Before(deadline) {
+		answered = 0
+		for _, r := range reqs {
+			if r.Done() {
+				answered++
+			}
+		}
+		if answered == len(reqs) {
+			break
+		}
+		time.Sleep(2 * time.Millisecond)
+	}
+	out := fmt.Sprintf("answered=%d/%d backend=%d", answered, len(reqs), atomic.LoadInt32(&seen))
+	cl.Stop()
+	<-started
+	return out
+}
+
 func yield() { time.Sleep(0) }
 
 // one socket-less processor for all c02.multi ops of a child (a fresh one per op leaks its statistics scopes)
@@ -435,6 +506,11 @@ func (c c02child) Exec(op string) string {
 			}
 		}
 		return first
+	case "c02.flt":
+		// c02.flt <g|s|a>…   a real backend connection with compression enabled; the requests (g GET, s SET, a APPEND — banned under
+		// compression, answered by the filter chain in the writer) are all queued before the writer starts, so each is encoded while
+		// the next one is pending.   -> answered=<n>/<sent> backend=<requests the backend received>   (after at most 1.5 s)
+		return recoverStr(func() string { return c.filtered(f[1:]) })
 	case "c02.stress":
 		if len(f) != 5 {
 			return "bad-op"
@@ -509,6 +585,18 @@ func (c *c02) Gen(r *hx.Run) {
 			r.Do(fmt.Sprintf("c02.multi %s:%s", k, p), strings.ContainsAny(p, "efnxc"), "multi")
 			r.Do(fmt.Sprintf("c02.multi Q %s:%s", k, p), true, "multi")
 		}
+	}
+	// requests queued behind one another on a connection with compression enabled, some of them answered by the filter chain (F-02f)
+	for _, sc := range []string{"g a", "a", "g", "a g", "g a a", "s a g a", "g s a"} {
+		r.Do("c02.flt "+sc, true, "flt")
+	}
+	for i := 0; i < r.N(12, 400); i++ {
+		n := 1 + rng.Intn(9)
+		var tk []string
+		for j := 0; j < n; j++ {
+			tk = append(tk, "gsaa"[rng.Intn(4):][:1])
+		}
+		r.Do("c02.flt "+strings.Join(tk, " "), true, "flt")
 	}
 	for i := 0; i < r.N(60, 1500); i++ {
 		var ps []string
